@@ -4,7 +4,7 @@
    universally quantified; what is assumed about them is stated as hypotheses H1/H2 of the
    theorems (validated for the generated family by the torn-write sweep of harness/c11.py). *)
 From SV Require Import Lib.Base C11.Model C11.Reader C11.NameProofs C11.CacheProofs C11.ReaderProofs
-  C11.Interleave C11.MemReader C11.MemProofs.
+  C11.Interleave C11.MemReader C11.MemProofs C11.Preempt C11.PreemptProofs.
 
 Definition format_roundtrips (ser : kind -> N -> bytes) (deser : kind -> bytes -> option N) : Prop :=
   forall k o, deser k (ser k o) = Some o.
@@ -164,6 +164,47 @@ Proof.
   inversion D. replace (N.pred (o' + 1)) with o' by lia. exact Hin.
 Qed.
 Print Assumptions mixture_rejecting_format_exists.
+
+(* lookups and purges preempted by other instances: before EVERY system call of a get / purge the
+   environment may remove any file (another instance's purge, expiry removal, purge after its own
+   failed load), clear the folder, or make our os.remove fail -- any schedule, any length.
+   Neither get nor purge raises, and a lookup returns nothing or what the entry file held when
+   the lookup started. *)
+Theorem get_never_raises_preempted : forall deser flt c t id sched f,
+  exists r, fst (icache_get deser flt c t id (sched, f)) = Ret r.
+Proof. exact get_never_raises_preempted_l. Qed.
+Print Assumptions get_never_raises_preempted.
+
+Theorem purge_never_raises_preempted : forall c id sched f,
+  exists r, fst (ipurge c id (sched, f)) = Ret r.
+Proof. exact purge_never_raises_preempted_l. Qed.
+Print Assumptions purge_never_raises_preempted.
+
+Theorem get_preempted_returns_stored : forall deser f0 flt c t id sched o,
+  fst (icache_get deser flt c t id (sched, f0)) = Ret (Some o) ->
+  exists x, f0 (fname (i_kind c) id) = Some x /\ deser (i_kind c) (f_data x) = Some o.
+Proof. exact get_preempted_returns_stored_l. Qed.
+Print Assumptions get_preempted_returns_stored.
+
+(* with nobody interfering these are the programs of Model.v *)
+Theorem preempted_get_is_get : forall deser flt c t id f,
+  icache_get deser flt c t id ([], f) =
+  (fst (cache_get deser flt c t id f), ([], snd (cache_get deser flt c t id f))).
+Proof. exact icache_get_unpreempted_l. Qed.
+Print Assumptions preempted_get_is_get.
+
+(* the blanket try/except in purge is needed: "if os.path.exists(f): os.remove(f)" raises when
+   another instance removes the file between the check and the unlink -- and so does the lookup
+   of a damaged entry, whose failure handler is purge *)
+Theorem purge_check_then_act_refuted :
+  let c := mkinst KPx 0 in
+  let nm := fname KPx [97]%N in
+  let f := fs_set fs_empty nm (mkfile [9; 9]%N 0) in
+  fst (ipurge_checked c [97]%N ([INop; IRemove nm], f)) = Exc /\
+  fst (icache_get_with toy_deser ipurge_checked NoFault c 0 [97]%N ([INop; INop; INop; IRemove nm], f)) = Exc /\
+  fst (icache_get toy_deser NoFault c 0 [97]%N ([INop; INop; INop; IRemove nm], f)) = Ret None.
+Proof. vm_compute. repeat split; reflexivity. Qed.
+Print Assumptions purge_check_then_act_refuted.
 
 (* ------------------------------------------------------------------ *)
 (* the readers                                                         *)
